@@ -42,6 +42,7 @@ type Case struct {
 	TgtDir   bool   `json:",omitempty"`
 	Gzip     bool   `json:",omitempty"`
 	ExpRef   bool   `json:",omitempty"` // export under another name
+	Corrupt  bool   `json:",omitempty"` // layout sources: one blob file of the image holds other bytes of the same length
 	Pinned   bool   `json:",omitempty"` // the exported reference (or the name override) carries tag AND digest, as "regctl image export --platform" passes it
 	Sel      string `json:",omitempty"` // tag | digest | name
 	Validate bool   `json:",omitempty"` // the target registry rejects manifests whose children are missing
@@ -595,6 +596,21 @@ func runCaseRaw(c Case, tmp string, res *lib.Result) []string {
 			return nil
 		}
 		srcName = "ocidir://" + sd + ":v1"
+		if c.Corrupt {
+			// damage one blob of the image in place: the export has to fail, or at least never write those bytes under the digest
+			clo := imgen.Closure(g.Root, false)
+			for _, d := range imgen.SortedDigests(clo) {
+				n := clo[d]
+				if n.Kind != "blob" || len(n.Body) < 3 {
+					continue
+				}
+				i := strings.IndexByte(d, ':')
+				bad := append([]byte(nil), n.Body...)
+				bad[len(bad)/2] ^= 0x20
+				_ = os.WriteFile(filepath.Join(sd, "blobs", d[:i], d[i+1:]), bad, 0o644)
+				break
+			}
+		}
 	}
 	if c.Pinned && !c.ExpRef {
 		srcName += "@" + g.Root.Digest
@@ -617,6 +633,10 @@ func runCaseRaw(c Case, tmp string, res *lib.Result) []string {
 	}
 	var buf bytes.Buffer
 	if err := w.rc.ImageExport(ctx, srcRef, &buf, opts...); err != nil {
+		if c.Corrupt && c.SrcDir {
+			res.Count("export:refused-damaged-source")
+			return nil
+		}
 		res.Fail("export-failed", fmt.Sprintf("ImageExport of a complete image (%s root) failed: %v", g.Root.Kind, err), c)
 		return nil
 	}
@@ -632,6 +652,10 @@ func runCaseRaw(c Case, tmp string, res *lib.Result) []string {
 	}
 	if msg := checkArchive(ents, g, wantTag, wantName); msg != "" {
 		res.Fail("archive-invalid", msg, c)
+		return nil
+	}
+	if c.Corrupt && c.SrcDir {
+		res.Count("export:damaged-source-exported") // possible only when the damaged blob is not part of what was exported
 		return nil
 	}
 	res.Count("export:" + g.Root.Kind)
@@ -1182,6 +1206,7 @@ func genCase(r *lib.Rand) Case {
 		c.Kind = "rt"
 		c.SrcDir, c.TgtDir, c.Gzip, c.ExpRef = r.Chance(30), r.Chance(35), r.Chance(40), r.Chance(25)
 		c.Pinned = r.Chance(30)
+		c.Corrupt = c.SrcDir && r.Chance(25)
 		c.Sel = lib.Pick(r, []string{"tag", "tag", "digest", "name"})
 		c.Validate = r.Chance(50)
 		c.Stale = r.Chance(25)
